@@ -76,7 +76,7 @@ PROPS = {
     "C01": writer_prop("C01", ["parse_exact", "probe_exact", "list_roundtrip", "msg_field_found", "msg_field_absent",
                                 "msg_enumerates_written", "absent_reads_zero", "writer_refines_layout",
                                 "written_tree_reads_back"], ["c01"],
-                       {"assumptions": ["writer_refines_layout covers the API programs of value trees (compRoot); Copy/Merge of opened messages is covered by the stream only",
+                       {"assumptions": ["writer_refines_layout covers the API programs of value trees (compRoot); Copy/Merge of a well-formed source is C16.copy_preserves, Any(raw bytes) enters as a leaf",
                                         "message tags below 2^16 and total sizes below 2^32 (MsgWF); float32 laws (FloatLaws)"]}),
     "C08": writer_prop("C08", ["type_codes", "fixed_width_big_endian", "string_layout", "varint_widths", "list_big_iff",
                                 "list_type_code", "msg_big_iff", "msg_table_sorted", "readable_by_library", "bytes_depend_only_on_tree"], ["c08", "golden"],
@@ -87,8 +87,8 @@ PROPS = {
                                 "reset_clean", "closed_handle", "double_end", "no_panic", "no_panic_from"], ["c12"],
                        {"assumptions": ["partial: build_ok_parses is decided by the differential stream and the Go-side oracle, not by a theorem; no_panic excludes Copy/Merge from arbitrary bytes",
                                         "calls through a handle kind the Go type system rejects are outside the alphabet (bad-op)"]}),
-    "C16": writer_prop("C16", ["common_field_unchanged", "absent_field_zero", "order_irrelevant"], ["c16"],
-                       {"assumptions": ["partial: copy_preserves is checked by the merge-preserves-unknown stream and the Go round-trip oracle",
+    "C16": writer_prop("C16", ["common_field_unchanged", "absent_field_zero", "order_irrelevant", "copy_preserves"], ["c16"],
+                       {"assumptions": ["copy_preserves: source message well formed (distinct tags < 2^16, self-delimiting values), written fields with distinct tags, total size below 2^32",
                                         "the generated-code leg (schemas A/A' through the compiler) belongs to C05's machinery"]}),
 }
 
